@@ -548,12 +548,14 @@ def explore_many(ctx, jobs, descend_level=2):
     while frontier:
         descend = level >= descend_level
         tasks = [(byname[n][1], byname[n][2], byname[n][3], d, descend, n) for n, d in frontier]
-        results = ctx.pmap(_explore_task, tasks, merge=False, chunksize=max(1, min(16, len(tasks) // (ctx.jobs * 16) or 1)))
         frontier = []
-        for acc in results:
+
+        def take(acc, frontier=frontier):
             n = acc.notes.pop("_name")
             frontier.extend((n, d) for d in acc.notes.pop("_children", []))
             ctx.merge(acc)
+
+        ctx.pmap(_explore_task, tasks, merge=False, chunksize=max(1, min(16, len(tasks) // (ctx.jobs * 16) or 1)), each=take)
         level += 1
         if descend:
             break
